@@ -1,16 +1,20 @@
 /-
   ICG.Driver.Norm — line protocol of domain `norm` (normalize.py / graph_game.py), stateless.
 
-    norm icg <n> <values>                  table `IncompleteCooperativeGame(n); set_values(values)`, then `normalize_game`
+    norm icg <n> <values> [<rtol>]         table `IncompleteCooperativeGame(n); set_values(values)`, then `normalize_game`
                                            → `I=<grand − Σ singletons> S=<singleton values> L=<lower column> U=<upper column>`
-    norm icgpart <n> <ids> <values>        `set_known_values(values, ids)` then `normalize_game` (error kinds of unknown rows)
-    norm closed <n> <values>               the closed form `normVal` → `V=<values>`
+    norm icgpart <n> <ids> <values> [<rtol>]  `set_known_values(values, ids)` then `normalize_game` (error kinds of unknown rows)
+    norm closed <n> <values> [<rtol>]      the closed form `normVal` → `V=<values>`
     norm graph <n> <matrix row-major>      `GraphCooperativeGame(matrix)`, `normalize_game`
                                            → `I=… S=… M=<matrix after> V=<values after>`
     norm gtable <n> <matrix row-major>     values of the graph game before normalisation → `V=…`
     norm denorm <n> <g> <singles> <values> `denormalize_game` on the full table of `values` → `L=… U=…`
     norm gdenorm <n> <g> <matrix>          `_denormalize_graph_game` → `M=… V=…`
   errors: `err:<kind>`; anything unparsable: `bad-op`.
+
+  `icg`, `icgpart` and `closed` take an optional last argument `<rtol>`: the relative tolerance of the additivity
+  guard of `_normalize_icg`.  Without it they use `ICG.Norm.defaultRtol`, the exact rational value of the
+  code's float literal `1e-9` (4835703278458517 / 2^82).
 -/
 import ICG.Model.Normalize
 import ICG.Driver.Proto
@@ -36,34 +40,55 @@ def answer (r : Except Err String) : String :=
   | .ok s => s
   | .error e => toString e
 
+/-- `normalize_game` on `IncompleteCooperativeGame(n); set_values(vals)` -/
+def opIcg (rtol : Rat) (n vals : String) : String :=
+  match n.toNat?, parseRats? vals with
+  | some n, some vals =>
+    answer do
+      let t ← (Table.init (α := Rat) n).setValues vals none
+      let (info, t') ← normalizeGame rtol t.compactT
+      pure s!"{showInfo info} {showTable t'}"
+  | _, _ => "bad-op"
+
+/-- `normalize_game` after `set_known_values(vals, ids)` -/
+def opIcgPart (rtol : Rat) (n ids vals : String) : String :=
+  match n.toNat?, parseNats? ids, parseRats? vals with
+  | some n, some ids, some vals =>
+    answer do
+      let t ← match (Table.init (α := Rat) n).setKnownValues vals (some ids) with
+        | .ok t => pure t
+        | .error (e, _) => throw e
+      let (info, t') ← normalizeGame rtol t.compactT
+      pure s!"{showInfo info} {showTable t'}"
+  | _, _, _ => "bad-op"
+
+/-- the closed form `normVal` -/
+def opClosed (rtol : Rat) (n vals : String) : String :=
+  match n.toNat?, parseRats? vals with
+  | some n, some vals =>
+    if vals.length = 2 ^ n then
+      let a := vals.toArray
+      let v : Nat → Rat := fun c => if h : c < a.size then a[c] else 0
+      s!"V={showRats ((allCoalitions n).map (normVal n rtol v))}"
+    else "bad-op"
+  | _, _ => "bad-op"
+
 def handle (s : State) : List String → State × String
-  | ["icg", n, vals] =>
-    match n.toNat?, parseRats? vals with
-    | some n, some vals =>
-      (s, answer do
-        let t ← (Table.init (α := Rat) n).setValues vals none
-        let (info, t') ← normalizeGame t.compactT
-        pure s!"{showInfo info} {showTable t'}")
-    | _, _ => (s, "bad-op")
-  | ["icgpart", n, ids, vals] =>
-    match n.toNat?, parseNats? ids, parseRats? vals with
-    | some n, some ids, some vals =>
-      (s, answer do
-        let t ← match (Table.init (α := Rat) n).setKnownValues vals (some ids) with
-          | .ok t => pure t
-          | .error (e, _) => throw e
-        let (info, t') ← normalizeGame t.compactT
-        pure s!"{showInfo info} {showTable t'}")
-    | _, _, _ => (s, "bad-op")
-  | ["closed", n, vals] =>
-    match n.toNat?, parseRats? vals with
-    | some n, some vals =>
-      if vals.length = 2 ^ n then
-        let a := vals.toArray
-        let v : Nat → Rat := fun c => if h : c < a.size then a[c] else 0
-        (s, s!"V={showRats ((allCoalitions n).map (normVal n v))}")
-      else (s, "bad-op")
-    | _, _ => (s, "bad-op")
+  | ["icg", n, vals] => (s, opIcg defaultRtol n vals)
+  | ["icg", n, vals, rtol] =>
+    match parseRat? rtol with
+    | some rtol => (s, opIcg rtol n vals)
+    | none => (s, "bad-op")
+  | ["icgpart", n, ids, vals] => (s, opIcgPart defaultRtol n ids vals)
+  | ["icgpart", n, ids, vals, rtol] =>
+    match parseRat? rtol with
+    | some rtol => (s, opIcgPart rtol n ids vals)
+    | none => (s, "bad-op")
+  | ["closed", n, vals] => (s, opClosed defaultRtol n vals)
+  | ["closed", n, vals, rtol] =>
+    match parseRat? rtol with
+    | some rtol => (s, opClosed rtol n vals)
+    | none => (s, "bad-op")
   | ["graph", n, mat] =>
     match n.toNat?, parseRats? mat with
     | some n, some mat =>
